@@ -1979,7 +1979,9 @@ impl<'a, 'b, W: Write> SerializeSeq for SeqSer<'a, 'b, W> {
                 self.ser.out.write_str("[]")?;
                 self.ser.newline()?;
             } else {
-                // Preserve legacy behavior: just emit a newline (empty body).
+                // Preserve legacy behavior: just emit a newline (empty body). The line of the
+                // `key:` this collection belongs to ends here, so no space is owed any more.
+                self.ser.pending_space_after_colon = false;
                 self.ser.newline()?;
             }
         } else {
@@ -2489,7 +2491,9 @@ impl<'a, 'b, W: Write> SerializeMap for MapSer<'a, 'b, W> {
                 self.ser.out.write_str("{}")?;
                 self.ser.newline()?;
             } else {
-                // Preserve legacy behavior: just emit a newline (empty body).
+                // Preserve legacy behavior: just emit a newline (empty body). The line of the
+                // `key:` this collection belongs to ends here, so no space is owed any more.
+                self.ser.pending_space_after_colon = false;
                 self.ser.newline()?;
             }
         } else {
